@@ -185,6 +185,12 @@ def scaleRec (k : Nat) (r : Rec) : Rec := { r with indentation := k * r.indentat
     `len(raw_lines[i]) - len(raw_line.lstrip())` (the `multiline_indentation`) is exactly the number of leading spaces -/
 def openerTight (l : Str) : Bool := !isOpener (strip l) || l.length == lead l + (strip l).length
 
+/-- forget the indentation numbers -/
+def eraseRec (r : Rec) : Rec := { r with indentation := 0 }
+
+/-- `numbered` up to the indentation numbers -/
+def eraseOut (x : Except Err (List Rec)) : Except Err (List Rec) := x.map (List.map eraseRec)
+
 /-- `"\n".join(lines)` -/
 def joinNL : List Str → Str
   | [] => []
